@@ -116,3 +116,60 @@ pub fn hex(b: &[u8]) -> String {
     }
     s
 }
+
+/// Consumes `st.range(start, end, order)` through the iterator adaptors a caller may use instead of a
+/// plain `collect` (`skip`, `nth`, `step_by`, `take`, `count`, `last`, `size_hint`, and `nth` after a
+/// few `next`) and compares each with the same adaptor applied to the expected sequence. Deterministic:
+/// the adaptor arguments derive from the expected length only.
+pub fn adaptor_mismatch(st: &dyn Storage, start: Option<&[u8]>, end: Option<&[u8]>, order: Order, exp: &[Record]) -> Option<String> {
+    let n = exp.len();
+    if n == 0 || n > 64 {
+        return None;
+    }
+    let it = || st.range(start, end, order);
+    for k in [1usize, 2, n / 2, n.saturating_sub(1), n] {
+        let got: Vec<Record> = it().skip(k).collect();
+        if got != exp[k.min(n)..] {
+            return Some(format!("skip({}) yields {} records, expected {}: got [{}]", k, got.len(), n - k.min(n), got.iter().map(|r| hex(&r.0)).collect::<Vec<_>>().join(",")));
+        }
+        let mut i = it();
+        let got = i.nth(k);
+        if got.as_ref() != exp.get(k) {
+            return Some(format!("nth({}) = {:?}, expected {:?}", k, got.map(|r| hex(&r.0)), exp.get(k).map(|r| hex(&r.0))));
+        }
+        let rest: Vec<Record> = i.collect();
+        if rest != exp[(k + 1).min(n)..] {
+            return Some(format!("after nth({}) {} records remain, expected {}", k, rest.len(), n - (k + 1).min(n)));
+        }
+    }
+    for step in [2usize, 3] {
+        let got: Vec<Record> = it().step_by(step).collect();
+        let want: Vec<Record> = exp.iter().cloned().step_by(step).collect();
+        if got != want {
+            return Some(format!("step_by({}) yields [{}], expected [{}]", step, got.iter().map(|r| hex(&r.0)).collect::<Vec<_>>().join(","), want.iter().map(|r| hex(&r.0)).collect::<Vec<_>>().join(",")));
+        }
+    }
+    // a few `next`, then a jump, then the rest
+    let mut i = it();
+    let a = i.next();
+    let b = i.nth(1);
+    let rest: Vec<Record> = i.collect();
+    if a.as_ref() != exp.first() || b.as_ref() != exp.get(2) || rest != exp[3.min(n)..] {
+        return Some("next, nth(1), collect does not equal elements 0, 2, 3.. of the expected sequence".to_string());
+    }
+    if it().count() != n {
+        return Some(format!("count() = {}, expected {}", it().count(), n));
+    }
+    if it().last().as_ref() != exp.last() {
+        return Some("last() is not the last expected record".to_string());
+    }
+    let got: Vec<Record> = it().take(2).collect();
+    if got != exp[..2.min(n)] {
+        return Some("take(2) differs".to_string());
+    }
+    let (lo, hi) = it().size_hint();
+    if lo > n || hi.map(|h| h < n).unwrap_or(false) {
+        return Some(format!("size_hint() = ({}, {:?}) excludes the true length {}", lo, hi, n));
+    }
+    None
+}
